@@ -36,9 +36,40 @@ func text(t string) string {
 	return t
 }
 
+// applyInString inserts text after the (p+1)-th double quote of the joined text.
+func applyInString(joined string, ds []Damage) string {
+	for _, d := range ds {
+		if d.K != "instr" {
+			continue
+		}
+		idx, seen := -1, 0
+		for i := 0; i < len(joined); i++ {
+			if joined[i] == '"' {
+				if seen == d.P {
+					idx = i
+					break
+				}
+				seen++
+			}
+		}
+		if idx < 0 {
+			idx = strings.IndexByte(joined, '"')
+		}
+		if idx < 0 {
+			joined = joined + "\"" + text(d.T) + "\""
+			continue
+		}
+		joined = joined[:idx+1] + text(d.T) + joined[idx+1:]
+	}
+	return joined
+}
+
 func apply(tokens []string, ds []Damage) []string {
 	out := append([]string{}, tokens...)
 	for _, d := range ds {
+		if d.K == "instr" {
+			continue
+		}
 		if len(out) == 0 {
 			out = []string{text(d.T)}
 			continue
@@ -357,7 +388,7 @@ func Handle(c *core.Check, st core.State) {
 	base := strings.Fields(e1.Render(node, e1.Layout{Mode: 4}))
 	dam := apply(base, ds)
 	for _, sep := range []string{" ", ""} {
-		expr := strings.Join(dam, sep)
+		expr := applyInString(strings.Join(dam, sep), ds)
 		orig := strings.Join(base, " ")
 		inputs := []string{
 			expr,
@@ -383,7 +414,7 @@ func Handle(c *core.Check, st core.State) {
 		if Brief && sep == "" {
 			continue
 		}
-		jdoc := strings.Join(apply(jbase, ds), sep)
+		jdoc := applyInString(strings.Join(apply(jbase, ds), sep), ds)
 		vec := map[string]any{"state": st.Raw, "source": jdoc, "kind": "json"}
 		if !CheckInput(c, []byte(jdoc), jsonEntries, vec) {
 			return
